@@ -22,7 +22,12 @@ META = {
 W_OPS_P = ["create_group", "setitem", "delitem", "attr_set", "attr_del", "require_group", "set_delvalue",
            "create_dataset", "require_dataset", "ds_write", "copy_into_patch"]
 W_PATHS = ["a", "a/x", "a/x/q", "b", "b/c", "/a"]
-W_OPS_PQ = ["copy", "move", "set_node"]
+W_OPS_PQ = ["copy", "move", "set_node", "copy_shallow", "copy_noattrs", "copy_node"]
+# operations through a sub-group handle r["a"] with relative / absolute arguments
+W_BASE = [("create_group", "x", None), ("create_group", "x/q", None), ("setitem", "y", None), ("setitem", "x", None),
+          ("delitem", "x", None), ("attr_set", "x", None), ("require_group", "x", None), ("create_dataset", "/b", None),
+          ("delitem", "/a", None), ("copy", "x", "y"), ("copy", "x", "/b"), ("move", "x", "y"), ("move", "x", "/b/c"),
+          ("copy_shallow", "/a", "/b")]
 W_PQ = [("a", "b"), ("a/x", "b"), ("a", "a/x/c"), ("a/x", "a/y"), ("a", "b/c"), ("b", "a")]
 
 
@@ -68,6 +73,15 @@ def w_parts(tier):
                 if op == "move" and q.startswith(p + "/"):
                     continue  # moving a node into its own subtree: excluded by the property
                 parts.append(Part(H, "W", {"n": n, "u": u, "op": op, "p": p, "q": q}, 600 if tier == "quick" else 3000, 60, ob, weight=2))
+    # copy/move of subtrees whose nested dataset carries attributes; operations through a sub-group handle
+    for op in ("copy", "move", "copy_shallow", "copy_noattrs", "copy_node"):
+        for p, q in (("a", "b"), ("a/x", "b"), ("a", "b/c")):
+            parts.append(Part(H, "W", {"n": 2, "u": "ax_xk", "op": op, "p": p, "q": q}, 600, 60, ob, weight=2))
+    for op in ("copy", "copy_shallow", "move", "copy_node"):  # depth-3 subtree: shallow vs deep copies differ
+        for p, q in (("a", "b"), ("a/x", "b")):
+            parts.append(Part(H, "W", {"n": 2, "u": "axp", "op": op, "p": p, "q": q}, 600, 60, ob, weight=2))
+    for op, p, q in W_BASE:
+        parts.append(Part(H, "W", {"n": 2, "u": "ax_k", "op": op, "p": p, "q": q, "base": "a"}, 600, 60, ob + " (through the handle r['a'])", weight=2))
     if tier == "quick":
         for op in ("create_group", "setitem", "delitem", "attr_set", "require_group"):
             for p in ("a", "a/x", "b/c"):
@@ -107,7 +121,7 @@ def confirm_stack(part, kwargs, native):
     final = None
     if part.func.startswith("W"):
         op = sel.get("op")
-        final = (op, sel.get("p"), sel.get("q")) if op in ("copy", "move") else (op, sel.get("p"), None)
+        final = (op, sel.get("p"), sel.get("q") if op.startswith(("copy", "move")) else None, sel.get("base"))
         if op == "set_node":
             final = None  # IH5-specific operation: no plain-file counterpart; judged on the substrate only
     script = HI.make_script(hist, final)
